@@ -179,7 +179,8 @@ func c19Drive(args []string) int {
 			_, fromOff := wallFrom.Zone()
 			_, toOffWall := wallTo.Zone()
 			// RFC 3339 cannot carry second-granular offsets (local mean time before standard time): not generated
-			if inOff%60 != 0 || fromOff%60 != 0 || toOffWall%60 != 0 {
+			// (only for the zones the row uses: a zone-less reading of the year 1 is as good as any)
+			if row.Row.InHasTZ && inOff%60 != 0 || row.Row.FromGiven && fromOff%60 != 0 || row.Row.ToGiven && toOffWall%60 != 0 {
 				continue
 			}
 			ms := 0
